@@ -227,7 +227,7 @@ def dro_call():
             out += obs
 
         # bi-affine expressions evaluated at an assigned realisation (and at zero when none is given)
-        for given in (True, False):
+        for given in (True, False, "entry", "reversed"):
             def setup_r(c, labels=labels, given=given):
                 ns = _build(c, "adapt(1);adapt(0)", labels, affine=False)
                 ns["zv"] = arr([c.fresh_real("zv0"), c.fresh_real("zv1")])
@@ -236,11 +236,13 @@ def dro_call():
 
             def want_r(ns, s, given=given):
                 xs = views.flat(_rule_value(ns, s, ns["x"]))
-                zv = ns["zv"] if given else [0.0, 0.0]
+                zv = {True: ns["zv"], False: [0.0, 0.0], "entry": [0.0, ns["zv"][1]], "reversed": [ns["zv"][1], ns["zv"][0]]}[given]
                 return xs[0] * zv[0] + xs[1] * zv[1] + views.flat(_rule_value(ns, s, ns["pad"]))[0] + 2 * zv[1]
             obs, _ = check_function(
                 "rsome.lp:DecRoAffine.__call__", setup_r,
-                (lambda ns: ns["expr"](ns["z"].assign(ns["zv"]))) if given else (lambda ns: ns["expr"]()),
+                {True: lambda ns: ns["expr"](ns["z"].assign(ns["zv"])), False: lambda ns: ns["expr"](),
+                 "entry": lambda ns: ns["expr"](ns["z"][1].assign(ns["zv"][1])),           # the other entry stays at zero
+                 "reversed": lambda ns: ns["expr"](ns["z"][::-1].assign(ns["zv"]))}[given],
                 [post("value-per-scenario-at-the-assigned-realisation", lambda ns, res, given=given: _series_matches(
                     ns, res, lambda s: want_r(ns, s, given), len(ns["x"].event_adapt)))],
                 mode="D", label=f"assigned={given},labels={'int' if labels is None else 'str'}", bounded=True)
